@@ -553,6 +553,32 @@ fn gen_mst(rng: &mut Rng, tier: Tier, out: &mut Vec<Case>) {
         }
         out.push(mst_case("mst-rand", rng, &es));
     }
+    // weights with the top bit set (2^31 ..= u32::MAX) are valid u32 weights: a light spanning tree, heavy edges
+    // that close cycles (never part of a minimum forest) and at most one heavy bridge, so that the cost still fits
+    // u32 (seeded change C16-r4m3: heap key `edge.data as i32`)
+    out.push(mst_case("mst-heavy", rng, &[(0, 1, 1), (1, 2, 2), (0, 2, 2147483648)]));
+    let nheavy = if tier == Tier::Quick { 150 } else { 3000 };
+    for i in 0..nheavy {
+        let n = 3 + rng.below(8) as usize;
+        let mut es: Vec<(usize, usize, u32)> = Vec::new();
+        let mut light: u64 = 0;
+        for v in 1..n {
+            let w = 1 + rng.below(100) as u32;
+            light += w as u64;
+            es.push((rng.below(v as u64) as usize, v, w));
+        }
+        for _ in 0..1 + rng.below(4) {
+            let (u, v) = (rng.below(n as u64) as usize, rng.below(n as u64) as usize);
+            let w = *rng.pick(&[2147483648u32, 2147483649, 3000000000, u32::MAX - 1, u32::MAX]);
+            es.push((u, v, w));
+        }
+        if i % 3 == 0 {
+            // one heavy bridge to a new node
+            let w = 2147483648u64 + rng.below((u32::MAX as u64) - 2147483648 - light);
+            es.push((rng.below(n as u64) as usize, n, w as u32));
+        }
+        out.push(mst_case("mst-heavy", rng, &es));
+    }
 }
 
 fn gen_uf(rng: &mut Rng, tier: Tier, out: &mut Vec<Case>) {
